@@ -34,6 +34,34 @@ theorem C05_isv_site_inventory :
       some ("ClientConfig.GetTlsConfig", "true", "err == nil && m.InsecureSkipVerify") := by
   decide
 
+/-- the inventory of ALL sites that set a verification-affecting field of a `tls.Config`
+    (Time, VerifyPeerCertificate, VerifyConnection, InsecureSkipVerify, ClientAuth, RootCAs,
+    ClientCAs, ServerName, GetConfigForClient — assignment or composite-literal element, anywhere in
+    non-test code) is the list the model mirrors, site by site.  A new site (a clock of its own, a
+    verification callback, a second pool assignment, …) breaks this obligation and names itself. -/
+theorem C05_verification_field_inventory :
+    SA.Gen.tlsVerifFieldSites = modelledVerifFieldSites := by
+  decide
+
+/-- hence no code path gives the config a clock of its own, a verification callback or a
+    per-connection config: what `InsecureSkipVerify = false` / `RequireAndVerifyClientCert` mean is
+    crypto/tls's own procedure evaluated at the wall clock (the `X509` contract of the theorems). -/
+theorem C05_no_verification_override :
+    ∀ s ∈ SA.Gen.tlsVerifFieldSites,
+      s.2.2 ∈ ["InsecureSkipVerify", "ClientAuth", "RootCAs", "ClientCAs", "ServerName"] := by
+  rw [C05_verification_field_inventory]; decide
+
+/-- the harness PKI's validity-boundary classes under the reference oracle: a certificate outside
+    its validity period at the moment of use (expired 24 h / 60 s / 1 s ago, valid only from 120 s on)
+    is refused by a verifying client whatever the carrier, and its holder is not admitted by a server
+    that requires client certificates; the short-lived `fresh` certificate is inside its period.
+    (Instances of `C05_auth_sound` / `C05_auth_sound_server`; these are the cells the matrix drives.) -/
+theorem C05_validity_boundary_table :
+    (∀ c ∈ ["expired", "exp1m", "exp1s", "notyet", "cexpired", "cexp1m", "cexp1s", "cnotyet"],
+        refX509.validNow c = false) ∧
+    (∀ c ∈ ["good", "fresh", "cgood", "cfresh"], refX509.validNow c = true) := by
+  decide
+
 /-- for every upstream kind except stdio+tls, the config handed to crypto/tls skips
     verification exactly when the `insecure` option is set -/
 theorem C05_verify_on_unless_insecure (k : Kind) (hk : k ≠ .stdioTls) (o : Opts) (conf : TlsCfg)
@@ -541,3 +569,6 @@ end SA.TlsConfig
 #print axioms SA.TlsConfig.C05_witness_shared_config_accepts_other_host
 #print axioms SA.TlsConfig.C05_witness_shared_config_refuses_certified
 #print axioms SA.TlsConfig.C05_witness_shared_config_stdio_leaks
+#print axioms SA.TlsConfig.C05_verification_field_inventory
+#print axioms SA.TlsConfig.C05_no_verification_override
+#print axioms SA.TlsConfig.C05_validity_boundary_table
